@@ -7,6 +7,10 @@ open GmQuic.Drv GmQuic.Protect GmQuic.Pn GmQuic.Wire
 
 structure St where
   before : Bool := true
+  /-- C06keys: the persistent receiver (`OneRttPacketKeys`) and its keys -/
+  one : OneRtt Nat := { cur := false, gen := 0, remote0 := none, remote1 := none, localK := 0 }
+  hk : Nat := 0
+  nx : List Nat := []
 
 def parseTy : String → Option PType
   | "initial" => some .initial
@@ -19,9 +23,20 @@ def doTx (ws : List String) : String :=
   match (kv ws "ty").bind parseTy, kvNat ws "k", kvNat ws "hk", (kv ws "hdr").bind parseHex,
         kvNat ws "pn", kvNat ws "la", kvNat ws "kp", (kv ws "body").bind parseHex with
   | some ty, some k, some hk, some (h0 :: hrest), some pn, some la, some kp, some body =>
-    match encode pn la with
+    let enc : Res PacketNumber :=
+      match kv ws "enc" with
+      | none => encode pn la
+      | some s =>
+        match s.splitOn ":" with
+        | ["u8", x] => .ok (.u8 (x.toNat?.getD 0))
+        | ["u16", x] => .ok (.u16 (x.toNat?.getD 0))
+        | ["u24", x] => .ok (.u24 (x.toNat?.getD 0))
+        | ["u32", x] => .ok (.u32 (x.toNat?.getD 0))
+        | _ => .panic .unreachable
+    match enc with
     | .panic _ => "PANIC"
     | .ok e =>
+      let body := if kvNat ws "pad" == some 1 then padTo20 toyAead.tagLen (size e) body else body
       match protect toyAead toyHp k hk ⟨ty, h0, hrest, pn, e, kp == 1, body⟩ with
       | .panic => "PANIC"
       | .ok pkt off => s!"pkt={toHex pkt} off={off}"
@@ -56,8 +71,50 @@ def doRx (st : St) (ws : List String) : String :=
       | .panic => "PANIC"
   | _, _, _, _, _, _ => "BAD rx args"
 
+def curStr (s : OneRtt Nat) : String := s!"cur={if s.cur then 1 else 0}"
+
+/-- C06keys: one packet received on the persistent key state -/
+def doKrx (st : St) (ws : List String) : St × String :=
+  match kvNat ws "off", kvNat ws "exp", (kv ws "buf").bind parseHex with
+  | some off, some exp, some buf =>
+    let nx := st.nx
+    let cfg : RxCfg Nat Nat :=
+      { reservedBeforeOpen := st.before, hpKey := fun _ => st.hk, longKey := fun _ => 0,
+        next := fun g => (nx.getD g 0, 0) }
+    let dec : PacketNumber → DecodePn := fun e =>
+      match decode e exp with
+      | .ok pn => .ok pn
+      | .panic p => .panic p
+    if typeOfFirst (buf.headD 0) ≠ some .oneRtt then (st, "TYPE-MISMATCH")
+    else
+      let (o, s') := receive toyAead toyHp cfg dec st.one buf off
+      let st' := { st with one := s' }
+      match o with
+      | .accepted _ pn kp _ body => (st', s!"acc pn={pn} kp={if kp then 1 else 0} body={toHex body} {curStr s'}")
+      | .dropped _ => (st', s!"drop {curStr s'}")
+      | .connError => (st', s!"connerr {curStr s'}")
+      | .panic => (st', "PANIC")
+  | _, _, _ => (st, "BAD krx args")
+
+def stepKeys (st : St) (op : List String) : St × String :=
+  match op with
+  | "kinit" :: ws =>
+    match kvNat ws "k", kvNat ws "hk" with
+    | some k, some hk =>
+      ({ st with hk := hk, nx := nextList ws,
+                 one := { cur := false, gen := 0, remote0 := some k, remote1 := none, localK := 0 } }, "ok")
+    | _, _ => (st, "BAD kinit args")
+  | "krx" :: ws => doKrx st ws
+  | ["kphaseout"] => let s' := st.one.phaseOut; ({ st with one := s' }, curStr s')
+  | ["kupdate"] =>
+    let cfg : RxCfg Nat Nat := { reservedBeforeOpen := st.before, hpKey := fun _ => st.hk, longKey := fun _ => 0,
+                                 next := fun g => (st.nx.getD g 0, 0) }
+    let s' := st.one.update cfg; ({ st with one := s' }, curStr s')
+  | _ => (st, "BAD op")
+
 def step (st : St) (op obs : List String) : St × Option String :=
   match op with
+  | "kinit" :: _ | "krx" :: _ | "kphaseout" :: _ | "kupdate" :: _ => exact stepKeys st op obs
   | "cfg" :: _ =>
     match kv obs "order" with
     | some "before" => ({ st with before := true }, none)
@@ -75,6 +132,6 @@ def ringModel : Model Unit := { init := (), step := fun s op _ => match op with
   | "ring" :: _ => (s, none)
   | _ => (s, some "BAD op") }
 
-def entries : List (String × IO UInt32) := [("C06toy", runModel model), ("C06ring", runModel ringModel)]
+def entries : List (String × IO UInt32) := [("C06toy", runModel model), ("C06keys", runModel model), ("C06ring", runModel ringModel)]
 
 end GmQuic.Drv.C06
